@@ -21,7 +21,7 @@ import scipy.linalg
 
 
 class LinSpec:
-    def __init__(self, n, eqs, meas=(), log=False, name=""):
+    def __init__(self, n, eqs, meas=(), log=False, name="", flat=True):
         """eqs[i] = dict(terms=[(j, shift, coef)], const=float, shock=True)
            meas[m] = dict(terms=[(j, shift<=0, coef)], const=float, shock=bool)"""
         self.n = n
@@ -29,19 +29,24 @@ class LinSpec:
         self.meas = [dict(m) for m in meas]
         self.log = log
         self.name = name
+        self.flat = flat
 
     # ---- names -----------------------------------------------------------------
+    # names are deliberately NOT in alphabetical order of declaration (z, a, m): an implementation that sorts
+    # names somewhere and relies on declaration order elsewhere must not get away with it
+    _SFX = "zamqb"
+
     def var(self, j):
-        return "v%d" % j
+        return "v" + self._SFX[j]
 
     def shk(self, i):
-        return "e%d" % i
+        return "e" + self._SFX[i]
 
     def obs(self, m):
-        return "o%d" % m
+        return "o" + self._SFX[m]
 
     def mshk(self, m):
-        return "w%d" % m
+        return "w" + self._SFX[m]
 
     def max_lag(self, j=None):
         return max([0] + [-s for e in self.eqs + self.meas for (jj, s, _) in e["terms"] if s < 0 and (j is None or jj == j)])
@@ -89,6 +94,9 @@ class LinSpec:
             L += ["!measurement-equations"]
             for m, e in enumerate(self.meas):
                 sh = (" + " + self.mshk(m)) if e.get("shock") else ""
+                # a measurement shock of another equation entering this one: (index of that equation, loading)
+                for (m2, cf) in e.get("xshocks", ()):
+                    sh += " + %r*%s" % (float(cf), self.mshk(m2))
                 if self.log:
                     rhs = " + ".join(["q_%d_%d*log(%s)" % (m, k, ref(j, s)) for k, (j, s, _) in enumerate(e["terms"])] + ["d_%d" % m]) + sh
                     L.append("    log(%s) = %s;" % (self.obs(m), rhs))
@@ -190,6 +198,8 @@ class LinSpec:
                 r += e.get("const", 0.0)
             if e.get("shock"):
                 r += get(self.mshk(m), t)
+            for (m2, cf) in e.get("xshocks", ()):
+                r += cf * get(self.mshk(m2), t)
             out.append(r)
         return out
 
@@ -200,12 +210,13 @@ class LinSpec:
 
     def to_json(self):
         import copy
-        return {"n": self.n, "eqs": copy.deepcopy(self.eqs), "meas": copy.deepcopy(self.meas), "log": self.log, "name": self.name}
+        return {"n": self.n, "eqs": copy.deepcopy(self.eqs), "meas": copy.deepcopy(self.meas), "log": self.log, "name": self.name,
+                "flat": self.flat}
 
     @classmethod
     def from_json(cls, d):
-        fix = lambda es: [dict(e, terms=[tuple(t) for t in e["terms"]]) for e in es]
-        return cls(d["n"], fix(d["eqs"]), fix(d["meas"]), d["log"], d.get("name", ""))
+        fix = lambda es: [dict(e, terms=[tuple(t) for t in e["terms"]], **({"xshocks": [tuple(x) for x in e["xshocks"]]} if "xshocks" in e else {})) for e in es]
+        return cls(d["n"], fix(d["eqs"]), fix(d["meas"]), d["log"], d.get("name", ""), d.get("flat", True))
 
 
 # ---------------------------------------------------------------------------
@@ -225,14 +236,15 @@ REGIMES = {
 def make_spec(n, lags, leads, cross_shift, regime, scale=1.0, const=True, meas="none", log=False):
     """lags[i], leads[i] in {0,1,2}; equation i additionally reads variable (i+1) % n at `cross_shift`
     (for n == 1 no cross term).  Coefficients of shift +-2 are 0.4 of the weight with opposite sign pattern."""
-    unitroot = regime == "unitroot"
+    drift = regime == "drift"           # unit root with drift: steady-state growth, model built with flat=False
+    unitroot = regime == "unitroot" or drift
     a, b, c = REGIMES["saddle" if unitroot else regime]
     a, b, c = a * scale, b * scale, c * scale
     eqs = []
     for i in range(n):
         if unitroot and i == 0:
             # variable 0 is a pure random walk (no constant: flat steady state), the others load on it
-            eqs.append(dict(terms=[(0, -1, 1.0)], const=0.0, shock=True))
+            eqs.append(dict(terms=[(0, -1, 1.0)], const=(0.02 if drift else 0.0), shock=True))
             continue
         terms = []
         w = 1.0 - 0.07 * i                      # make equations differ
@@ -255,7 +267,7 @@ def make_spec(n, lags, leads, cross_shift, regime, scale=1.0, const=True, meas="
         ms.append(dict(terms=[(j, 0, 0.8), (0, -1, 0.5)] if lags[0] > 0 or True else [(j, 0, 0.8)], const=-0.2 if const else 0.0, shock=False))
     name = "n%d_L%s_F%s_x%+d_%s_%s%s%s" % (n, "".join(map(str, lags)), "".join(map(str, leads)), cross_shift, regime,
                                          meas, "_log" if log else "", "" if const else "_noconst")
-    return LinSpec(n, eqs, ms, log, name)
+    return LinSpec(n, eqs, ms, log, name, flat=not drift)
 
 
 def family(tier, seed=0):
@@ -297,6 +309,13 @@ def family(tier, seed=0):
             add(2, (1, L1), (0, F1), xs, meas=("one", "two")[(L1 + F1) % 2])
     add(3, (1, 1, 1), (0, 1, 1), -1, meas="one")
     add(3, (1, 0, 2), (0, 1, 0), 0, meas="two")
+    # unit root with drift (steady-state growth; non-flat), in levels and as log-variables
+    regs[:] = ["drift"]
+    for lg in (False, True):
+        add(1, (1,), (0,), 0, meas="one", log=lg)
+        add(2, (1, 1), (0, 1), -1, meas="one", log=lg)
+        add(2, (1, 0), (0, 1), 0, meas="two", log=lg)
+        add(3, (1, 1, 1), (0, 1, 0), -1, meas="one", log=lg)
     regs[:] = regs_save
     # log-variable (multiplicative) versions of the n <= 2 models with lags/leads <= 1 and a no-constant variant
     for L0, F0 in itertools.product((0, 1), repeat=2):
@@ -315,3 +334,26 @@ def oscillating_spec(meas="two"):
     if meas == "two":
         ms.append(dict(terms=[(1, 0, 1.0), (0, -1, 0.3)], const=0.5, shock=False))
     return LinSpec(2, eqs, ms, False, "oscillating_ar2_pair_%s" % meas)
+
+
+def shared_measurement_shock_spec():
+    """one measurement shock entering two measurement equations (H has a full column: correlated measurement errors)"""
+    eqs = [dict(terms=[(0, -1, 0.7), (1, -1, 0.1)], const=0.3, shock=True),
+           dict(terms=[(1, -1, 0.5), (0, 0, 0.2)], const=0.1, shock=True)]
+    ms = [dict(terms=[(0, 0, 1.0)], const=0.0, shock=True),
+          dict(terms=[(1, 0, 1.0)], const=0.5, shock=True, xshocks=[(0, -0.8)])]
+    return LinSpec(2, eqs, ms, False, "shared_measurement_shock")
+
+
+def unit_root_declared_last_specs():
+    """the unit-root variable is NOT the first declared transition variable"""
+    ar = dict(terms=[(0, -1, 0.6)], const=0.2, shock=True)
+    rw = dict(terms=[(1, -1, 1.0)], const=0.0, shock=True)
+    ar2 = dict(terms=[(0, -1, 0.5), (0, +1, 0.2)], const=0.0, shock=True)
+    mid = dict(terms=[(1, -1, 0.4), (0, 0, 0.3)], const=0.0, shock=True)
+    rw3 = dict(terms=[(2, -1, 1.0)], const=0.0, shock=True)
+    return [
+        LinSpec(2, [ar, rw], [dict(terms=[(1, 0, 1.0), (0, 0, 1.0)], const=0.0, shock=True), dict(terms=[(0, 0, 2.0)], const=0.1, shock=True)], False, "ur_last_two"),
+        LinSpec(3, [ar2, mid, rw3], [dict(terms=[(2, 0, 1.0)], const=0.0, shock=True), dict(terms=[(0, 0, 1.0), (1, 0, 0.5)], const=0.0, shock=False),
+                                      dict(terms=[(1, 0, 1.0), (2, 0, 1.0), (2, -1, -1.0)], const=0.0, shock=True)], False, "ur_last_three"),
+    ]
